@@ -151,6 +151,8 @@ def gen_program(rng, depth):
         if rng.random() < 0.5:
             body.append(["user", g.tok("i")])
             body += g.block(max(depth - 1, 0), False, True, 1, 2)
+        if not any(s[0] in ("bot", "exec", "user") for s in body) and rng.random() < 0.85:
+            body.append(g.bot())  # a flow that ends on its starting event is a known finding; keep it rare
         flows.append({"name": "f" + "abcd"[j], "lead": lead, "body": body})
     # subflows nobody calls are legal, keep them
     return {"flows": flows, "subs": subs}
@@ -319,7 +321,8 @@ def ref_turns(P, plan, cov):
         F = P["flows"][fi]
         upd = {}
         g = interp(F["body"], ctx, P["subs"], upd, cov)
-        turn = {"intent": F["lead"], "expect": []}
+        turn = {"intent": F["lead"], "expect": [], "after_leave": bool(inprog)}
+        first = turn
         turns.append(turn)
         waits, send, left = 0, None, False
         while True:
@@ -336,7 +339,7 @@ def ref_turns(P, plan, cov):
                     left = True
                     break
                 waits += 1
-                turn = {"intent": item[1], "expect": []}
+                turn = {"intent": item[1], "expect": [], "after_leave": bool(inprog)}
                 turns.append(turn)
             else:
                 turn["expect"].append([dict(upd), list(item)])
@@ -356,8 +359,11 @@ def ref_turns(P, plan, cov):
                 nz += 1
                 cov["leaves_unknown"] += 1
                 turns.append({"intent": "zz%d" % nz, "expect": None})
-        elif upd:
-            turn["expect"].append([dict(upd), None])
+        else:
+            if upd:
+                turn["expect"].append([dict(upd), None])
+            if waits == 0 and not any(d[1] for d in first["expect"]):
+                first["ends_on_start"] = True  # the flow ran to its end while processing its leading intent
     for t in plan["tail"]:
         turns.append({"intent": t, "expect": None})
     return turns
@@ -614,7 +620,8 @@ def _features(P, turns, ti):
         body = lead[t["intent"]]["body"]
         f["flow_has_actionable"] = _count(body, lambda s: s[0] in ("bot", "exec", "do")) > 0
         f["started_before"] = any(x["intent"] == t["intent"] for x in turns[:ti])
-    f["after_leave"] = any(x["expect"] is None for x in turns[:ti]) or any(x["intent"] in lead for x in turns[1 : ti + 1])
+    f["after_leave"] = bool(t and t.get("after_leave"))
+    f["flow_ended_on_start_before"] = any(x.get("ends_on_start") for x in turns[:ti])
     return f
 
 
@@ -775,6 +782,8 @@ def classify(r):
         return "runtime-nonterminating"
     if kind.startswith("EXC:"):
         return "exception:" + kind[4:]
+    if f.get("flow_ended_on_start_before"):
+        return "flow-finished-on-start-stays-active"
     return "decision-differs-from-reference" + (":after-leave" if f.get("after_leave") else "")
 
 
